@@ -22,20 +22,27 @@ RULE_LOCAL = ("strings are enumerated once each by the L1 odometer (all token st
               "a string counts as non-trivial when it has >= 2 bytes and the reference automaton is still alive before its last byte "
               "(L2/L3/sweep strings, the scalar-surrounding product, the 'huge' lengths 2^8..2^32, the alignment sweep and the deep six-class strings of <= 10 (12) tokens are evaluated too but not counted here, they may repeat L1 strings)")
 
-check('C02', level='model_checking', steps=[dict(src='drv/local.c', variant='plain', defs=[], name='local-ascii')],
+check('C02', level='model_checking', steps=[dict(src='drv/local.c', variant='plain', defs=[], name='local-ascii'),
+                                             # the same automaton product after setlocale(): a scanner that classifies bytes with the locale's <ctype.h> tables changes its language
+                                             dict(src='drv/local.c', variant='plain', defs=[], name='local-ascii-latin1-locale', locale='eav_latin1', args=['--core']),
+                                             dict(src='drv/local.c', variant='plain', defs=[], name='local-ascii-utf8-locale', locale='C.UTF-8', args=['--core'])],
       rule=RULE_LOCAL, deadline=dict(quick=240, thorough=3000),
       mc_keys=dict(states='ref_states', transitions='ref_transitions'))
 import c20cli
 check('C03', level='model_checking', steps=[dict(src='drv/local.c', variant='plain', defs=['-DC03'], name='local-6531'),
                                              # the shipped tool links its own copy of the UTF-8 decoder (bin/utf8_decode.c) in front of the library's: mode 6531 as a user of
                                              # bin/eav gets it is decided there - the UTF-8 strictness files of C20 plus every lead x second byte and all range edges
-                                             dict(kind='py', name='cli-decoder', fn=c20cli.run_utf8, replay=c20cli.replay)],
+                                             dict(kind='py', name='cli-decoder', fn=c20cli.run_utf8, replay=c20cli.replay),
+                                             dict(src='drv/local.c', variant='plain', defs=['-DC03'], name='local-6531-utf8-locale', locale='C.UTF-8', args=['--core', '--scalars']),
+                                             dict(src='drv/local.c', variant='plain', defs=['-DC03'], name='local-6531-latin1-locale', locale='eav_latin1', args=['--core'])],
       rule=RULE_LOCAL, deadline=dict(quick=240, thorough=3000),
       mc_keys=dict(states='ref_states', transitions='ref_transitions'))
 
 check('C04', level='exploration', steps=[dict(src='drv/c04.c', variant='plain', name='domain'),
                                            # the LABELS_ALLOW_UNDERSCORE build compiles another branch structure of the same scanner: all generators again, reference with '_' as a letter
-                                           dict(src='drv/c04.c', variant='opt4', defs=['-DREF_OPTS=4'], name='domain-UNDERSCORE-build')],
+                                           dict(src='drv/c04.c', variant='opt4', defs=['-DREF_OPTS=4'], name='domain-UNDERSCORE-build'),
+                                           dict(src='drv/c04.c', variant='plain', name='domain-latin1-locale', locale='eav_latin1'),
+                                           dict(src='drv/c04.c', variant='plain', name='domain-utf8-locale', locale='C.UTF-8')],
       rule=("every string is generated once per layer (L1 odometer over 8 classes; L2 base x position x byte; L3 length generators incl. the label-count sweep n = 1..140 equal labels of 1..63 characters, each also behind a 64-octet local part, and all-numeric names of 1..12 labels); "
             "non-trivial = L1 strings of >= 2 bytes containing a dot or hyphen (the structure rules are exercised); counted by the driver"),
       deadline=dict(quick=240, thorough=3000))
@@ -233,6 +240,14 @@ def build_step(bdir, step):
     kind = step.get('kind', 'mc')
     if kind == 'py':
         return None
+    if step.get('locale'):
+        # the process locale as an environment input: 'eav_latin1' is compiled on the spot (lib/buildlib.py build_locale), 'C.UTF-8' is built into glibc
+        env = dict(step.get('env', {})); loc = step['locale']
+        if loc == 'eav_latin1':
+            ldir = BL.build_locale(bdir)
+            if ldir: env['LOCPATH'] = ldir
+            else: loc = 'C.UTF-8'
+        env['MC_LOCALE'] = loc; step['env'] = env
     builder = step.get('builder')
     if builder:
         return builder(bdir, step)
